@@ -73,12 +73,15 @@ claim("C20", "other", "linear-form + congruence reasoning over induction variabl
       "shorter' clause, or that CompareNatural is a total preorder.",
       BASE_NOTE,
       "DESIGN.md section 3, C20")
-claim("C07", "other", "normalisation typing of ring offsets (Norm/Raw) with currency checks, must-pass rotation rule, non-zero divisor facts",
-      "Decides the structural part of wrap-around and growth: every index into the ring buffer and every new head is wrap-normalised with the length of the CURRENT buffer "
-      "(the repository's three wrap idioms are recognised semantically, including their guards), every update of n keeps 0 <= n <= len, replacing the buffer resets head and n, "
-      "the buffer is only extended with head == 0 (branch fact or Rotate(vs, -head) followed by head = 0), every % len(vs) is reached only with n > 0, and Each is stoppable. "
-      "Does NOT decide that the contents equal the reference deque (order, loss, duplication) nor slice.Rotate's own correctness.",
-      BASE_NOTE + " The struct invariant 0<=head<len, 0<=n<=len is assumed at method entry and re-established by the obligations (inductive).",
+claim("C07", "other", "abstract interpretation of package queue: intervals with bounds linear in the buffer length L (two regimes L=0 / L>=1, path-sensitive for loop-free methods, joined fixpoint for loops, helper methods followed), residue classes mod L of every ring position against a per-method ring-deque specification, must-pass rotation rule",
+      "Decides the ring arithmetic of wrap-around on the no-growth paths and the memory safety of all paths: every index into the ring buffer lies in [0, L-1] and every slice within [0, L] for the CURRENT buffer, "
+      "every return re-establishes 0 <= n <= L and 0 <= head <= max(L-1, 0) (inductive step of the ring invariant; constructors start from 0), every % len(vs) is reached only with L >= 1; "
+      "and on every path that neither grows nor rotates the buffer the slot touched is the one the deque semantics prescribes, as a residue class mod L relative to the entry state: "
+      "Add writes head+n, Push writes head-1 and leaves head = head-1, Pop reads head and leaves head+1 (free when empty), PopLast reads head+n-1, Front reads head, Peek(i) reads head+i (head+n+i for i<0), "
+      "Each/Slice walk from head in steps of one, and n changes by exactly +1/-1/0. The buffer is only extended with head == 0 (branch fact or Rotate(vs, -head) followed by head = 0), and Each is stoppable. "
+      "Does NOT decide the growth paths beyond bounds and the head == 0 precondition (that append keeps the first n cells, slice.Rotate's own correctness), the number of elements Each/Slice visit, "
+      "the content of bulk copies, nor — as a whole — that the contents equal the reference deque over arbitrary histories.",
+      BASE_NOTE + " The struct invariant 0<=head<len, 0<=n<=len is assumed at method entry and re-established at every return (inductive). The per-method slot specification is written from the documented deque semantics of the exported API (method names are the anchors).",
       "DESIGN.md section 3, C07")
 claim("C08", "other", "in-block pairing of departures with callback/size/count effects, loop-exit fact for the size bound, effect summary (purity) of Check, clock tick pairing",
       "Decides the accounting clauses structurally: each departure from the store (Remove of a key found by Check, or Evict) is paired with exactly one eviction callback on that "
